@@ -62,11 +62,11 @@ def workdir(pid):
 # ---------------------------------------------------------------------------
 # TLC model checking of a configuration
 
-def tlc_mc(module, cfg, wd, workers=8, timeout=1500, heap="6g", extra="", simulate=None, coverage=False):
+def tlc_mc(module, cfg, wd, workers=8, timeout=1500, heap="6g", extra="", simulate=None, coverage=False, env_prefix=""):
     """Run TLC on spec/<module>.tla with spec/<cfg>. Returns dict(states, distinct, ok, out)."""
     meta = f"{wd}/meta-{cfg.replace('/', '_')}"
     mode = f"-simulate num={simulate[0]} -depth {simulate[1]}" if simulate else ""
-    cmd = (f"timeout {timeout} java -Xmx{heap} -Xss64m -XX:+UseParallelGC -cp {JAR} tlc2.TLC -workers {workers} "
+    cmd = (f"{env_prefix} timeout {timeout} java -Xmx{heap} -Xss64m -XX:+UseParallelGC -cp {JAR} tlc2.TLC -workers {workers} "
            f"-metadir {meta} -cleanup -noGenerateSpecTE {'-coverage 1' if coverage else ''} {mode} {extra} -config {cfg} {module}.tla")
     t = time.time()
     rc, out = sh(cmd, cwd=SPEC, timeout=timeout + 60)
@@ -106,7 +106,7 @@ def tlc_trace(module, trace, wd, timeout=1800, heap="3g"):
     meta = f"{wd}/tmeta-{os.path.basename(trace)}-{time.time_ns()}"
     env = {"TRACE": trace,
            "JAVA_TOOL_OPTIONS": "-Xss1g -Dtlc2.tool.queue.IStateQueue=StateDeque"}
-    cmd = (f"timeout {timeout} java -Xmx{heap} -XX:+UseParallelGC -cp {JAR} tlc2.TLC -workers 1 "
+    cmd = (f"{env_prefix} timeout {timeout} java -Xmx{heap} -XX:+UseParallelGC -cp {JAR} tlc2.TLC -workers 1 "
            f"-metadir {meta} -cleanup -noGenerateSpecTE -config {module}.cfg {module}.tla")
     rc, out = sh(cmd, cwd=SPEC, env=env, timeout=timeout + 60)
     shutil.rmtree(meta, ignore_errors=True)
